@@ -71,7 +71,11 @@ def run_impl(case):
                 rec['ret'] = {'raised': type(e).__name__}
             rec['ids'] = [tp_id for (_m, tp_id, _c) in r.logger.logged[before:]]
             out.append(rec)
-        return {'events': out, 'pending': bool(r.handler._callbacks.is_set)}
+        try:
+            pending = bool(r.handler._callbacks.is_set)
+        except Exception:       # not part of the statement: best effort
+            pending = None
+        return {'events': out, 'pending': pending}
     except Exception as e:
         return {'raised': '%s: %s' % (type(e).__name__, e)}
     finally:
